@@ -503,6 +503,155 @@ class Coverage:
         return list(uniq.values())
 
 
+# ---- reach of the correspondence on the UNCHANGED tree --------------------------------------------------
+# Which statements of the functions in a property's anchored files do the generated inputs execute?  A measurement
+# only (never a verdict): a statement that no input reaches is code the model was never compared with, and a later
+# change there could only be reported as no-failing-input-found.  Always on in the thorough tier, on in quick with
+# VERIF_COVERAGE=1.
+_DEBUG_FN = ("__repr__", "__str__", "debug", "log_debug", "debug_packet", "print_stats", "print_statistics",
+             "print_snmp_data", "print_pcap", "set_debug_voice_bytes", "main")
+
+
+def _is_stub(fn):
+    """abstract method / interface stub: nothing but pass, ..., a docstring or raise NotImplementedError"""
+    for d in fn.decorator_list:
+        if "abstractmethod" in ast.dump(d):
+            return True
+    body = [st for st in fn.body if not _is_docstring(st) and not isinstance(st, ast.Pass)]
+    for st in body:
+        if isinstance(st, ast.Expr) and isinstance(st.value, ast.Constant) and st.value.value is Ellipsis:
+            continue
+        if isinstance(st, ast.Raise) and st.exc is not None and "NotImplemented" in ast.dump(st.exc):
+            continue
+        return False
+    return True
+
+
+def anchor_statements(prop_id, extra=(), keep=()):
+    """every statement of every function of the files the property is anchored in (properties.jsonl anchors.files
+    plus the module's ANCHORS): [{file, path, qualname, line, end, kind, src}].  Left out: docstrings, def/class
+    headers, imports, __repr__/__str__/debug helpers (unless named in keep), interface stubs, tests."""
+    out = []
+    seen = set()
+    for rel in list(anchors_of(prop_id)) + list(extra):
+        for f in files_under(rel):
+            if f in seen or "/tests/" in f or not f.endswith(".py"):
+                continue
+            seen.add(f)
+            path = os.path.realpath(os.path.join(repo_root(), f))
+            try:
+                src = open(path, encoding="utf-8").read()
+                tree = ast.parse(src)
+            except Exception:
+                continue
+            lines = src.splitlines()
+
+            def walk(node, prefix):
+                for ch in getattr(node, "body", []):
+                    if isinstance(ch, (ast.FunctionDef, ast.AsyncFunctionDef)):
+                        if (ch.name in _DEBUG_FN and ch.name not in keep) or _is_stub(ch):
+                            continue
+                        for st in _stmts(ch):
+                            lo, hi = _header_span(st)
+                            out.append({"file": f, "path": path, "qualname": prefix + ch.name, "line": lo, "end": hi,
+                                        "kind": type(st).__name__,
+                                        "src": lines[lo - 1].strip()[:160] if 0 < lo <= len(lines) else ""})
+                    elif isinstance(ch, ast.ClassDef):
+                        walk(ch, prefix + ch.name + ".")
+
+            walk(tree, "")
+    return out
+
+
+class AnchorCoverage(Coverage):
+    """Coverage of the given statements, line events only (no branch arming, no code swapping), under its own tool id
+    and log; Python children started with exec report too (harness/covhook/sitecustomize.py via PYTHONPATH)."""
+
+    TOOL = 4
+    HOOK = os.path.join(HERE, "covhook")
+
+    def __init__(self, stmts, run_dir, tag=""):
+        super().__init__(stmts, run_dir)
+        os.makedirs(run_dir, exist_ok=True)
+        self.log = os.path.join(run_dir, f"acov-{tag}{os.getpid()}.txt")
+        self.wantf = os.path.join(run_dir, f"acov-{tag}{os.getpid()}.want")
+        self._stop = None
+        self._env = {}
+
+    def start(self):
+        if not self.stmts:
+            return
+        import importlib.util
+        try:
+            spec = importlib.util.spec_from_file_location("_verif_covhook", os.path.join(self.HOOK, "sitecustomize.py"))
+            hook = importlib.util.module_from_spec(spec)
+            spec.loader.exec_module(hook)
+            self._stop = hook.install(self.want, self.log, tool=self.TOOL, truncate=True)
+        except Exception:
+            self._stop = None
+        if self._stop is None:
+            return
+        self.active = True
+        try:
+            with open(self.wantf, "w", encoding="utf-8") as fh:
+                for p_, ls in self.want.items():
+                    fh.write(p_ + "\t" + ",".join(str(x) for x in sorted(ls)) + "\n")
+            new = {"VERIF_ACOV_LOG": self.log, "VERIF_ACOV_WANT": self.wantf,
+                   "PYTHONPATH": self.HOOK + (os.pathsep + os.environ["PYTHONPATH"] if os.environ.get("PYTHONPATH") else "")}
+            for k, v in new.items():
+                self._env[k] = os.environ.get(k)
+                os.environ[k] = v
+        except Exception:
+            pass
+
+    def stop(self):
+        if not self.active:
+            return
+        self._stop()
+        self.active = False
+        for k, v in self._env.items():
+            if v is None:
+                os.environ.pop(k, None)
+            else:
+                os.environ[k] = v
+
+    def summary(self, cap=200):
+        """the evidence entry; None when nothing was measured"""
+        if not self.stmts:
+            return None
+        unc = self.uncovered()
+        if unc is None:
+            return None
+        missed = {id(s) for s in unc}
+        per_fn = {}
+        for s in self.stmts:
+            t = per_fn.setdefault((s["file"], s["qualname"]), [0, 0])
+            t[0] += 1
+            t[1] += id(s) not in missed
+        never = sorted(f"{f}::{q}" for (f, q), (n, m) in per_fn.items() if m == 0)
+        part = [s for s in unc if per_fn[(s["file"], s["qualname"])][1] > 0]
+        rest = [s for s in unc if per_fn[(s["file"], s["qualname"])][1] == 0]
+        fmt = lambda s: f"{s['file']}::{s['qualname']}:{s['line']}: {s['src']}"  # noqa: E731
+        per_file = {}
+        for s in self.stmts:
+            t = per_file.setdefault(s["file"], [0, 0])
+            t[0] += 1
+            t[1] += id(s) not in missed
+        return {"statements": len(self.stmts), "executed": len(self.stmts) - len(unc),
+                "functions": len(per_fn), "functions_never_entered": never,
+                "statements_never_executed_in_entered_functions": len(part),
+                "statements_never_executed": [fmt(s) for s in (part + rest)[:cap]],
+                "per_file": {f: f"{m}/{n}" for f, (n, m) in sorted(per_file.items())},
+                "_all_never_executed": [fmt(s) for s in part + rest]}
+
+    def cleanup(self):
+        for p_ in (self.log, self.wantf):
+            try:
+                os.remove(p_)
+            except OSError:
+                pass
+
+
 def files_under(rel):
     root = repo_root()
     p = os.path.join(root, rel)
